@@ -91,14 +91,11 @@ func c11R2(c *engine.Ctx) {
 		n++
 		ret := engine.Unwrap(r.Results[0])
 		ok := engine.GuardedBy(r, func(k engine.Cmp) bool {
-			call := engine.CallOf(k.X)
-			b, isb := engine.ConstBool(k.Y)
-			if call == nil || engine.CalleeID(call.Common()) != "bytes.Equal" || !isb || !(k.Op == token.EQL && b) {
+			if k.Op != token.EQL {
 				return false
 			}
-			// one operand: sha1.Sum(returned value); other: a prefix of the parameter
 			hashOfRet, prefix := false, false
-			for _, a := range call.Common().Args {
+			for _, a := range []ssa.Value{k.X, k.Y} {
 				sums := engine.FindCallBack(a, "crypto/sha1.Sum")
 				if len(sums) == 1 && engine.Unwrap(sums[0].Common().Args[0]) == ret {
 					hashOfRet = true
